@@ -97,6 +97,11 @@ v('C07', 'fire', KA, 'cho_solve((L, True), HP', 'cho_solve((L, False), HP')
 v('C07', 'fire', KA, 'S = HP @ H.T + R', 'S = HP @ H.T')
 v('C07 C19', 'fire', KA, 'K = cho_solve((L, True), HP, overwrite_b=True).T', 'K = cho_solve((L, True), P, overwrite_b=True).T')
 v('C07', 'silent', KA, 'U = np.eye(len(x)) - K.dot(H)', 'U = np.identity(len(x)) - K @ H')
+v('C11', 'fire', 'filters.py', '    trajectory.alt += error_nav.down', '    trajectory.alt -= error_nav.down', 'compensated altitude with the wrong sign')
+v('C11', 'fire', 'filters.py', '    trajectory.lon -= error_nav.east / rp * transform.RAD_TO_DEG', '    trajectory.lon -= error_nav.east / rn * transform.RAD_TO_DEG', 'compensated longitude with the meridian radius')
+v('C11', 'fire', 'filters.py', '    trajectory.lat -= error_nav.north / rn * transform.RAD_TO_DEG', '    trajectory.lat -= error_nav.north / rn', 'compensated latitude in radians')
+v('C11 C19', 'fire', 'filters.py', '    trajectory = trajectory.copy()\n    trajectory.lat -=', '    trajectory.lat -=', 'compensation applied to the caller\'s table')
+v('C11', 'silent', 'filters.py', '    trajectory.lat -= error_nav.north / rn * transform.RAD_TO_DEG', '    trajectory.lat -= transform.RAD_TO_DEG * (error_nav.north / rn)', 'same compensation, other grouping')
 v('C06', 'fire', 'measurements.py', '            mat_nb = transform.mat_from_rph(pva[RPH_COLS])\n            z += mat_nb @ self.imu_to_antenna_b\n        H = error_model.position_error_jacobian', '            z += self.imu_to_antenna_b @ transform.mat_from_rph(pva[RPH_COLS])\n        H = error_model.position_error_jacobian', 'seeded C06 round 4: lever arm multiplied from the left (C^T l)')
 v('C11', 'fire', 'filters.py', '    T = error_model.transform_to_output(trajectory_nominal)\n', '    T = error_model.transform_to_output(trajectory_nominal)\n    T_sd = error_model.transform_to_output(trajectory)\n', 'seeded C11 round 4 (in kind): a second output transform at the computed trajectory')
 v('C14', 'fire', 'inertial_sensor.py', '                if actual != nominal:', '                if not np.isclose(actual, nominal):', 'seeded C14 round 4: table column dropped for a parameter within isclose tolerance of nominal')
